@@ -11,6 +11,8 @@ import (
 	refhamt "github.com/ipfs/boxo/ipld/unixfs/hamt"
 	"github.com/ipfs/go-cid"
 	format "github.com/ipfs/go-ipld-format"
+	"github.com/ipld/go-ipld-prime"
+	cidlink "github.com/ipld/go-ipld-prime/linking/cid"
 
 	"verif/harness/core"
 	"verif/harness/gen"
@@ -95,6 +97,20 @@ func c08State(s *store.Store, fanout int, root cid.Cid, rootSize uint64, set map
 		}); p {
 			viol("panic read-reference", fmt.Sprintf("%s: %v", desc, pv))
 		}
+	}
+	// the same through a link system that reifies every node it loads
+	if p, pv := core.Guard(func() {
+		lr := lsReifying(s)
+		n2, err := lr.Load(ipld.LinkContext{Ctx: context.Background()}, cidlink.Link{Cid: root}, protoFor(root))
+		if err != nil {
+			viol("read-reference reifying-linksystem load", fmt.Sprintf("%s: %v", desc, err))
+			return
+		}
+		mapView(n2, want, append(append([]string{}, universe...), "nope"), func(sig, detail string) {
+			viol("read-reference reifying-linksystem "+sig, desc+": "+detail)
+		})
+	}); p {
+		viol("panic read-reference reifying-linksystem", fmt.Sprintf("%s: %v", desc, pv))
 	}
 	if len(es) == 0 {
 		return
